@@ -96,6 +96,10 @@ impl ValidationReport {
     pub fn process(
         engine: &Engine, config: &Config, initial: bool,
     ) -> Result<(Self, Metrics), RunFailed> {
+        #[cfg(routinator_verif)]
+        if let Some(err) = crate::verif::run_outcome() {
+            return Err(err)
+        }
         let report = Self::new(config);
         let mut run = engine.start(&report, initial)?;
         run.process()?;
